@@ -20,6 +20,7 @@ from .recode import (
 from .typemap import MultiTypeMap
 from .types import clsstring, normalize_type
 from .utils import MISSING, UsageError, keyword_decorator, subtler_type
+from .utils import _verif_make_lock
 
 _current_id = itertools.count()
 
@@ -379,6 +380,7 @@ class Ovld:
         self._defns = {}
         self._locked = False
         self._lock = threading.RLock()
+        self._lock = _verif_make_lock(self._lock)
         self.mixins = []
         self.argument_analysis = ArgumentAnalyzer()
         self.add_mixins(*mixins)
